@@ -661,6 +661,11 @@ impl Engine {
         if self.replay_only || self.failed() {
             return;
         }
+        if cfg!(debug_assertions) {
+            // the fuzz targets are built once (by cargo-fuzz, with debug assertions on);
+            // the campaign is driven from the release run only
+            return;
+        }
         self.any_campaign.store(true, Ordering::Relaxed);
         self.all_exhaustive.store(false, Ordering::Relaxed);
         let t0 = Instant::now();
@@ -680,6 +685,12 @@ impl Engine {
                 return;
             }
         }
+        // run the built fuzzer binaries directly (no concurrent cargo invocations)
+        let bin = harness.join("fuzz").join("target").join("x86_64-unknown-linux-gnu").join("release").join(target);
+        if !bin.exists() {
+            self.harness_error(format!("fuzz binary {} not found after the build", bin.display()));
+            return;
+        }
         let mut children = Vec::new();
         for j in 0..jobs {
             let work = harness.join("fuzz").join("corpus-work").join(format!("{target}-{j}"));
@@ -689,11 +700,9 @@ impl Engine {
             let _ = std::fs::create_dir_all(&work);
             let _ = std::fs::create_dir_all(&arts);
             let seed = (self.seed.wrapping_mul(1000).wrapping_add(j) % 0x7fff_ffff).max(1);
-            let child = std::process::Command::new("cargo")
-                .args(["+nightly", "fuzz", "run", target])
+            let child = std::process::Command::new(&bin)
                 .arg(&work)
                 .arg(&seed_corpus)
-                .arg("--")
                 .args([
                     format!("-runs={}", runs / jobs),
                     format!("-seed={seed}"),
